@@ -15,6 +15,9 @@ history only, never from the model's verdicts):
   delivery-rejected an honest peer's update/revocation is rejected for a non-constraint reason
   internal-error    capacity assertion / fee-rate assertion / panic inside the state machine
   forged-sig-accepted  a commitment_signed whose signature the harness corrupted is accepted
+  htlc-output-index the recorded OutputIndex of every non-dust HTLC points at an output of the real
+                    transaction whose value is its amount in sat (and whose class / cltv / hash
+                    match); dust HTLCs have none; no two HTLCs share an index
   mirror-signed     signer's remote commitment = mirror of the receiver's local commitment (same height)
   mirror-idle       nothing in flight ⇒ both views of both commitments are mirror images (byte-equal txs)
   log-agreement     at every signature delivery the signer's state when it signed and the receiver's
@@ -44,6 +47,8 @@ structure CDump where
   pos : Nat
   cm : Commit
   raw : List RawOut
+  /-- recorded HTLC → output index assignment: (incoming, htlc index, output index; -1 = dust). -/
+  oidx : List (Bool × Nat × Int) := []
 deriving Repr, Inhabited
 
 structure NDump where
@@ -92,6 +97,11 @@ def parseHtlc (tok : String) : Option Htlc :=
            hash := natD hid, dust := dust == "1" }
   | _ => none
 
+def parseOutIdx (tok : String) : Option (Bool × Nat × Int) :=
+  match tok.splitOn ":" with
+  | ["I", dir, idx, oi] => some (dir == "i", natD idx, oi.toInt?.getD (-2))
+  | _ => none
+
 def parseRawOut (tok : String) : Option RawOut :=
   match tok.splitOn ":" with
   | ["O", v, cls, cltv, hid, script] => some ⟨natD v, cls, natD cltv, natD hid, script⟩
@@ -131,6 +141,7 @@ def parseCommit (ws : List String) : Option CDump :=
     let outs := raw.filterMap fun o => (kindOf o.cls).map fun k =>
       ({ value := o.value, kind := k, cltv := o.cltv, hash := o.hid } : Out)
     some { chain := if side == "L" then .loc else .rem, pos := natD pos, raw := raw,
+           oidx := hs.filterMap parseOutIdx,
            cm := { height := (kvNat? hdr "h").getD 0, our := (kvNat? hdr "our").getD 0,
                    their := (kvNat? hdr "their").getD 0, fee := (kvNat? hdr "fee").getD 0,
                    feePerKw := (kvNat? hdr "fpk").getD 0, ourMsg := mi.1, theirMsg := mi.2,
@@ -180,6 +191,7 @@ structure St where
   snapBA : List NDump := []
   agreeChecks : Nat := 0
   badSigs : Nat := 0
+  outIdxChecked : Nat := 0
   -- statistics
   signs : Nat := 0
   sigsVerified : Nat := 0
@@ -322,6 +334,27 @@ def checkCommit (s : St) (node : String) (d : CDump) : IO St := do
       s ← monitor s "tx-outputs" s!"{tag} duplicated balance output"
     if !rawSorted d.raw then
       s ← monitor s "tx-outputs" s!"{tag} outputs not in BIP69+CLTV order"
+    -- the recorded HTLC → output index assignment
+    if !d.oidx.isEmpty then
+      for h in c.htlcs do
+        match d.oidx.find? (fun x => x.1 == h.incoming && x.2.1 == h.idx) with
+        | none => s ← monitor s "htlc-output-index" s!"{tag} htlc idx={h.idx} incoming={h.incoming} has no recorded output index"
+        | some (_, _, oi) =>
+          if h.dust then
+            if oi ≥ 0 then
+              s ← monitor s "htlc-output-index" s!"{tag} dust htlc idx={h.idx} incoming={h.incoming} recorded at output {oi}"
+          else
+            -- offered by the owner of this commitment?
+            let cls := if h.incoming == (d.chain == .rem) then "ho" else "hr"
+            match (if oi < 0 then none else d.raw[oi.toNat]?) with
+            | none => s ← monitor s "htlc-output-index" s!"{tag} htlc idx={h.idx} incoming={h.incoming} recorded output index {oi} is not an output"
+            | some o =>
+              if o.value != h.amt / 1000 || o.cls != cls || o.cltv != h.expiry || o.hid != h.hash then
+                s ← monitor s "htlc-output-index" s!"{tag} htlc idx={h.idx} incoming={h.incoming} amt_sat={h.amt / 1000} exp={h.expiry} recorded at output {oi} with value={o.value} class={o.cls} cltv={o.cltv}"
+      let used := (d.oidx.filter (fun x => x.2.2 ≥ 0)).map (·.2.2)
+      if used.eraseDups.length != used.length then
+        s ← monitor s "htlc-output-index" s!"{tag} two HTLCs share an output index: {used}"
+      s := { s with outIdxChecked := s.outIdxChecked + c.htlcs.length }
   s := { s with dustHtlcs := s.dustHtlcs + (c.htlcs.filter (·.dust)).length,
                 nondustHtlcs := s.nondustHtlcs + (c.htlcs.filter (!·.dust)).length,
                 maxHtlcsOnCommit := max s.maxHtlcsOnCommit c.htlcs.length }
@@ -706,6 +739,7 @@ def main (args : List String) : IO Unit := do
   IO.println s!"STAT mirror_signed_checks={s.mirrorSigned}"
   IO.println s!"STAT log_agreement_checks={s.agreeChecks}"
   IO.println s!"STAT corrupted_signatures_delivered={s.badSigs}"
+  IO.println s!"STAT htlc_output_indices_checked={s.outIdxChecked}"
   IO.println s!"STAT idle_mirror_checks={s.idleChecks}"
   IO.println s!"STAT dust_htlcs_on_commitments={s.dustHtlcs}"
   IO.println s!"STAT nondust_htlcs_on_commitments={s.nondustHtlcs}"
